@@ -101,6 +101,12 @@ class Val:
             return []
         if self.big and [ek, lk] in [list(p) for p in self.big["pairs"]]:
             n = max(1, int(self.big.get("rows", 1)))
+            kind = self.big.get("kind", "hex")
+            if kind == "rep":       # highly compressible: one short pattern repeated (deflate reaches ~1000:1)
+                pat = 'ab"]c[{\\%d%d-' % (ek, lk)
+                return [{"reward": i, "blob": (pat * (self.big["size"] // n // len(pat) + 1))[:self.big["size"] // n]} for i in range(n)]
+            if kind == "rows":      # highly compressible: very many short periodic rows (about 10 characters of log per row; size 1.2M = 60000 rows)
+                return [{"reward": (i + ek) % 7, "tag": "row-%d" % (i % 10)} for i in range(max(1, self.big["size"] // 20))]
             return [{"reward": i, "blob": blob(self.big["size"] // n, ek, lk, self.k, i)} for i in range(n)]
         if self.mode == "cb":
             from coba.evaluators import SequentialCB
